@@ -2,8 +2,8 @@
 from .. import lib, runner
 
 PROP = "C10"
-THEOREMS = ["Bridge.no_strobe_outside_transfer", "Bridge.one_access_per_granule", "Bridge.ack_once_on_time", "Bridge.read_lanes", "Bridge.back_to_back", "Bridge.idle_stays", "Bridge.atomic_register_write", "Bridge.transfer"]
-IMPORTS = ["SocVerif.Props.C10"]
+THEOREMS = ["Bridge.no_strobe_outside_transfer", "Bridge.one_access_per_granule", "Bridge.ack_once_on_time", "Bridge.read_lanes", "Bridge.back_to_back", "Bridge.idle_stays", "Bridge.atomic_register_write", "Bridge.transfer", "Bridge.wb_read_is_atomic", "Bridge.wb_write_is_atomic", "Bridge.wb_read_through_tree"]
+IMPORTS = ["SocVerif.Props.C10", "SocVerif.Props.C10E"]
 
 
 def mask_model(line):
